@@ -343,7 +343,16 @@ func vlHistory(t *testing.T, enc *json.Encoder, hist int, rng *rand.Rand, nblock
 			rng.Shuffle(len(avail), func(i, j int) { avail[i], avail[j] = avail[j], avail[i] })
 			return avail[:k], avail[k:]
 		}
-		avail := append(coin.UxArray{}, uxs...)
+		// only inputs that can pay a coin-hour fee (the publisher applies the soft rules to its own blocks)
+		avail := coin.UxArray{}
+		for _, ux := range uxs {
+			if hh, err := ux.CoinHours(headTime); err == nil && hh >= 2 {
+				avail = append(avail, ux)
+			}
+		}
+		if len(avail) == 0 {
+			break
+		}
 		ins1, rest := pick(avail)
 		txns := coin.Transactions{mkTxn(ins1, 0, false, false)}
 		var ins2 []coin.UxOut
